@@ -111,6 +111,7 @@ package mqtt
 
 // lockWrite: takes the write token. nil error: the token (a live connection) is held.
 //@ func mqtt.(*Client).lockWrite -> conn, err
+//@ requires[C10] !rdr(c)
 //@ ensures !closed(c.onlineSig) && (old(len(c.onlineSig)) == 1 ==> len(c.onlineSig) == 1 && qat(c.onlineSig, 0) == old(qat(c.onlineSig, 0)))
 //@ modifies chanstate(c.writeSem), chanstate(c.onlineSig)
 //@ requires c.writeSem != nil && cap(c.writeSem) == 1 && c.onlineSig != nil && !closed(c.onlineSig) && cap(c.onlineSig) == 1 && c.ctx != nil
@@ -127,6 +128,7 @@ package mqtt
 
 // write: the packet goes to the connection found in the write semaphore, or nowhere.
 //@ func mqtt.(*Client).write -> err
+//@ requires[C10] !rdr(c)
 //@ ensures[C14] err != nil ==> !denied(err) && !Is(err, ErrMax)
 //@ ensures !closed(c.onlineSig) && (old(len(c.onlineSig)) == 1 ==> len(c.onlineSig) == 1 && qat(c.onlineSig, 0) == old(qat(c.onlineSig, 0)))
 //@ requires c.writeSem != nil && cap(c.writeSem) == 1 && c.onlineSig != nil && !closed(c.onlineSig) && cap(c.onlineSig) == 1 && c.ctx != nil
@@ -140,8 +142,35 @@ package mqtt
 //@ ensures cap(c.writeSem) == 1 && (closed(c.writeSem) ==> len(c.writeSem) == 0)
 //@ ensures forall(k, 0, len(p), p[k] == old(p[k]))
 
+// writeLocked: with the write token held, the packet goes to that connection completely, or the connection
+// is given up (closed, pending-connect token in the semaphore).
+//@ func mqtt.(*Client).writeLocked -> err
+//@ requires conn != nil && conn != boxed(connSignal, 0) && conn != boxed(connSignal, 1) && c.writeSem != nil && cap(c.writeSem) == 1 && len(c.writeSem) == 0 && !closed(c.writeSem)
+//@ modifies wire(conn), wire_len(conn), wclosed(conn), wdl(conn), chanstate(c.writeSem)
+//@ ensures[C08,C14] err == nil ==> len(c.writeSem) == 1 && !closed(c.writeSem) && qat(c.writeSem, 0) == conn && wire_len(conn) == old(wire_len(conn)) + len(p) && forall(i, old(wire_len(conn)), wire_len(conn), wire(conn)[i] == p[i - old(wire_len(conn))]) && forall(k, 0, old(wire_len(conn)), wire(conn)[k] == old(wire(conn))[k])
+//@ ensures[C08,C10,C14] err != nil ==> Is(err, ErrSubmit) && !denied(err) && !Is(err, ErrMax) && err != ErrCanceled && err != ErrClosed && err != ErrDown && len(c.writeSem) == 1 && qat(c.writeSem, 0) == boxed(connSignal, 0)
+//@ ensures cap(c.writeSem) == 1 && !closed(c.writeSem)
+//@ ensures forall(k, 0, len(p), p[k] == old(p[k]))
+
+// writeAck: the write of the read routine. It never awaits a reconnect (which would be its own, F4): a
+// connection that is gone is reported as ErrDown with the token left in place.
+//@ func mqtt.(*Client).writeAck -> err
+//@ requires[C10] rdr(c)
+//@ requires c.writeSem != nil && cap(c.writeSem) == 1 && (closed(c.writeSem) ==> len(c.writeSem) == 0)
+//@ modifies wire, wire_len, wclosed, wdl, chanstate(c.writeSem)
+//@ ensures[C14] err != nil ==> !denied(err) && !Is(err, ErrMax)
+//@ ensures[C08,C14] err == nil ==> len(c.writeSem) == 1 && !closed(c.writeSem) && qat(c.writeSem, 0) != boxed(connSignal, 0) && qat(c.writeSem, 0) != boxed(connSignal, 1) && qat(c.writeSem, 0) != nil
+//@ ensures[C08,C14] err == nil ==> forall(w, w == qat(c.writeSem, 0) ==> wire_len(w) == old(wire_len(w)) + len(p) && forall(i, old(wire_len(w)), wire_len(w), wire(w)[i] == p[i - old(wire_len(w))]) && forall(k, 0, old(wire_len(w)), wire(w)[k] == old(wire(w))[k]))
+//@ ensures[C08,C14] err == nil ==> forall(k, k != qat(c.writeSem, 0) ==> wire_len(k) == old(wire_len(k)))
+//@ ensures[C08,C10,C14] err != nil && err != ErrClosed && err != ErrDown ==> Is(err, ErrSubmit) && len(c.writeSem) == 1 && qat(c.writeSem, 0) == boxed(connSignal, 0)
+//@ ensures[C10,C14] err == ErrClosed || err == ErrDown ==> forall(k, wire_len(k) == old(wire_len(k)))
+//@ ensures[C10] err == ErrDown ==> len(c.writeSem) == 1 && (qat(c.writeSem, 0) == boxed(connSignal, 0) || qat(c.writeSem, 0) == boxed(connSignal, 1))
+//@ ensures cap(c.writeSem) == 1 && (closed(c.writeSem) ==> len(c.writeSem) == 0)
+//@ ensures forall(k, 0, len(p), p[k] == old(p[k]))
+
 // writeBuffers: the flattened packet goes to the connection found in the write semaphore, or nowhere.
 //@ func mqtt.(*Client).writeBuffers -> err
+//@ requires[C10] !rdr(c)
 //@ ensures[C14] err != nil ==> !denied(err)
 //@ ensures !closed(c.onlineSig) && (old(len(c.onlineSig)) == 1 ==> len(c.onlineSig) == 1 && qat(c.onlineSig, 0) == old(qat(c.onlineSig, 0)))
 //@ requires c.writeSem != nil && cap(c.writeSem) == 1 && c.onlineSig != nil && !closed(c.onlineSig) && cap(c.onlineSig) == 1 && c.ctx != nil
@@ -194,6 +223,7 @@ package mqtt
 
 // onPUBREC: Save(PUBREL) first, then count, then write.
 //@ func mqtt.(*Client).onPUBREC -> err
+//@ requires[C10] rdr(c)
 //@ ensures wrap64(c.Received - c.Completed) <= len(c.exactlyOnce.queue)
 //@ ensures cap(c.writeSem) == 1 && (closed(c.writeSem) ==> len(c.writeSem) == 0) && !closed(c.onlineSig) && (old(len(c.onlineSig)) == 1 ==> len(c.onlineSig) == 1 && qat(c.onlineSig, 0) == old(qat(c.onlineSig, 0)))
 //@ ensures ref(c.pendingAck) == old(ref(c.pendingAck)) || fresh(c.pendingAck)
@@ -216,6 +246,7 @@ package mqtt
 
 // onPUBREL: Delete(marker) first, PUBCOMP only after; also for unknown identifiers.
 //@ func mqtt.(*Client).onPUBREL -> err
+//@ requires[C10] rdr(c)
 //@ ensures cap(c.writeSem) == 1 && (closed(c.writeSem) ==> len(c.writeSem) == 0) && !closed(c.onlineSig) && (old(len(c.onlineSig)) == 1 ==> len(c.onlineSig) == 1 && qat(c.onlineSig, 0) == old(qat(c.onlineSig, 0)))
 //@ ensures ref(c.pendingAck) == old(ref(c.pendingAck)) || fresh(c.pendingAck)
 //@ ensures old(len(c.pendingAck)) == 0 || old(len(c.pendingAck)) == 4 ==> len(c.pendingAck) == 0 || len(c.pendingAck) == 4
@@ -227,7 +258,7 @@ package mqtt
 //@ ensures[C04,C13] len(c.peek) != 2 || c.peek[0]*256 + c.peek[1] == 0 ==> err != nil && forall(k, st_has(c.persistence, k) == old(st_has(c.persistence, k))) && c.pendingAck == old(c.pendingAck)
 //@ ensures[C04] forall(k, len(c.peek) == 2 && k != 65536 + c.peek[0]*256 + c.peek[1] ==> st_has(c.persistence, k) == old(st_has(c.persistence, k)))
 //@ ensures[C04,C07] err != nil && len(c.pendingAck) != old(len(c.pendingAck)) ==> len(c.pendingAck) == 4 && c.pendingAck[0] == 112 && c.pendingAck[1] == 2 && c.pendingAck[2] == c.peek[0] && c.pendingAck[3] == c.peek[1] && !st_has(c.persistence, 65536 + c.peek[0]*256 + c.peek[1])
-//@ at[C04] call write#1: assert !st_has(c.persistence, 65536 + c.peek[0]*256 + c.peek[1]) && len(p) == 4 && p[0] == 112 && p[1] == 2 && p[2] == c.peek[0] && p[3] == c.peek[1]
+//@ at[C04] call writeAck#1: assert !st_has(c.persistence, 65536 + c.peek[0]*256 + c.peek[1]) && len(p) == 4 && p[0] == 112 && p[1] == 2 && p[2] == c.peek[0] && p[3] == c.peek[1]
 
 //@ func mqtt.(*Client).onPINGRESP -> err
 //@ ensures !closed(c.pingAck)
@@ -242,6 +273,7 @@ package mqtt
 // answered with PUBREC again, and not delivered again (F3, fixed).
 //@ pred qos2dup(c, head): (head/2)%4 == 2 && len(c.peek) >= 4 + c.peek[0]*256 + c.peek[1] && c.peek[2 + c.peek[0]*256 + c.peek[1]]*256 + c.peek[3 + c.peek[0]*256 + c.peek[1]] != 0 && st_has(c.persistence, 65536 + c.peek[2 + c.peek[0]*256 + c.peek[1]]*256 + c.peek[3 + c.peek[0]*256 + c.peek[1]])
 //@ func mqtt.(*Client).onPUBLISH -> message, topic, err
+//@ requires[C10] rdr(c)
 //@ ensures ref(c.pendingAck) == old(ref(c.pendingAck)) || fresh(c.pendingAck)
 //@ ensures old(len(c.pendingAck)) == 0 || old(len(c.pendingAck)) == 4 ==> len(c.pendingAck) == 0 || len(c.pendingAck) == 4
 //@ modifies c.pendingAck, elems(c.pendingAck), wire, wire_len, wclosed, wdl, chanstate(c.writeSem), chanstate(c.onlineSig)
@@ -664,12 +696,13 @@ package mqtt
 //@ pred rdinv(c): cfglens(c) && writable(c) && sigfull(c) && c.connSem != nil && cap(c.connSem) == 1 && c.connSem != c.writeSem && (closed(c.connSem) ==> len(c.connSem) == 0) && c.persistence != nil && c.perPacketID != nil && c.pingAck != nil && !closed(c.pingAck) && cap(c.pingAck) == 1 && c.atLeastOnce.queue != nil && c.exactlyOnce.queue != nil && c.atLeastOnce.queue != c.exactlyOnce.queue && c.pingAck != c.atLeastOnce.queue && c.pingAck != c.exactlyOnce.queue && c.atLeastOnce.seqSem != nil && cap(c.atLeastOnce.seqSem) == 1 && c.exactlyOnce.seqSem != nil && cap(c.exactlyOnce.seqSem) == 1 && c.atLeastOnce.seqSem != c.exactlyOnce.seqSem && !closed(c.atLeastOnce.seqSem) && !closed(c.exactlyOnce.seqSem) && wrap64(c.Received - c.Completed) <= len(c.exactlyOnce.queue) && cap(c.exactlyOnce.queue) <= 16384 && (len(c.pendingAck) == 0 || len(c.pendingAck) == 4) && (c.bufr != nil ==> rx_bufref(c.bufr) > 0 && allocated(rx_bufref(c.bufr)) && rx_bufref(c.bufr) != ref(c.pendingAck) && rx_size(c.bufr) == readBufSize) && (ref(c.peek) == 0 || (c.bufr != nil && ref(c.peek) == rx_bufref(c.bufr))) && (c.bigMessage != nil ==> c.bigMessage.Size >= 0) && (c.bufr == nil ==> c.bigMessage == nil && c.peek == nil) && (c.bufr != nil ==> len(c.peek) <= rx_size(c.bufr))
 //@ pred rdmaps(c): forall(k, k >= 32768 && k < 65536 && st_has(c.persistence, k) ==> st_len(c.persistence, k) >= 2) && (st_has(c.persistence, 0) ==> st_len(c.persistence, 0) <= 65535)
 //@ func mqtt.(*Client).readSlices -> message, topic, err
+//@ requires[C10] rdr(c)
 //@ stable writeSem, seqSem
 //@ requires rdinv(c) && rdmaps(c) && (c.readConn == nil) == (c.bufr == nil)
 //@ loop 1: invariant rdinv(c)
 //@ loop[reveal=flatlen_] 1: invariant rdmaps(c)
 //@ loop 1: invariant c.readConn != nil && c.bufr != nil && c.bigMessage == nil
-//@ at[C04,C07] call write#1: assert len(p) == 4 && p == c.pendingAck && (p[0] / 16 == 5 ==> st_has(c.persistence, 65536 + p[2]*256 + p[3]))
+//@ at[C04,C07] call writeAck#1: assert len(p) == 4 && p == c.pendingAck && (p[0] / 16 == 5 ==> st_has(c.persistence, 65536 + p[2]*256 + p[3]))
 //@ ensures[C06,C07,C10,C13] rdinv(c) && ((c.readConn == nil) == (c.bufr == nil))
 //@ ensures[C10,C13] err != nil && Is(err, errProtoReset) && !closed(c.writeSem) ==> c.readConn == nil && c.bufr == nil && c.peek == nil && c.bigMessage == nil
 //@ ensures[C06] err == nil ==> c.bufr != nil && (ref(message) == 0 || ref(message) == rx_bufref(c.bufr)) && (ref(topic) == 0 || ref(topic) == rx_bufref(c.bufr))
@@ -730,6 +763,7 @@ package mqtt
 
 // publish (QoS 0): denied arguments leave no trace; success means the whole PUBLISH went to one connection.
 //@ func mqtt.(*Client).publish -> err
+//@ requires[C10] !rdr(c)
 //@ modifies wire, wire_len, wclosed, wdl, chanstate(c.writeSem), chanstate(c.onlineSig)
 //@ requires writable(c)
 //@ ensures[C09,C14] (err != nil && denied(err)) == (len(topic) == 0 || len(topic) > 65535 || !utf8ok(arr(topic), off(topic), len(topic)) || hasnul(arr(topic), off(topic), len(topic)) || pubrem(len(topic), len(message), 0) > 268435455)
@@ -740,6 +774,7 @@ package mqtt
 //@ ensures[C14] forall(k, 0, len(message), message[k] == old(message[k]))
 
 //@ func mqtt.(*Client).Publish -> err
+//@ requires[C10] !rdr(c)
 //@ requires writable(c)
 //@ at[C05,C09] call publish#1: assert head == 48
 //@ ensures[C09,C14] (err != nil && denied(err)) == (len(topic) == 0 || len(topic) > 65535 || !utf8ok(arr(topic), off(topic), len(topic)) || hasnul(arr(topic), off(topic), len(topic)) || pubrem(len(topic), len(message), 0) > 268435455)
@@ -747,6 +782,7 @@ package mqtt
 //@ ensures[C09,C14] err != nil && !Is(err, ErrSubmit) ==> forall(k, wire_len(k) == old(wire_len(k)))
 
 //@ func mqtt.(*Client).PublishRetained -> err
+//@ requires[C10] !rdr(c)
 //@ requires writable(c)
 //@ at[C05,C09] call publish#1: assert head == 49
 //@ ensures[C09,C14] (err != nil && denied(err)) == (len(topic) == 0 || len(topic) > 65535 || !utf8ok(arr(topic), off(topic), len(topic)) || hasnul(arr(topic), off(topic), len(topic)) || pubrem(len(topic), len(message), 0) > 268435455)
@@ -794,6 +830,7 @@ package mqtt
 // slot is released again on every way out that is not the broker's answer.
 //@ pred topicok(s): len(s) > 0 && len(s) <= 65535 && utf8ok(arr(s), off(s), len(s)) && !hasnul(arr(s), off(s), len(s))
 //@ func mqtt.(*Client).subscribeLevel -> err
+//@ requires[C10] !rdr(c)
 //@ requires writable(c) && c.perPacketID != nil
 //@ loop[reveal=flatlen_] 1: invariant size == 2 + 3*len(topicFilters) + strslenk(topicFilters, rangeindex + 1) && strslenk(topicFilters, rangeindex + 1) <= 65535 * (rangeindex + 1)
 //@ loop 1: invariant forall(i, 0, rangeindex + 1, topicok(topicFilters[i]))
@@ -813,6 +850,7 @@ package mqtt
 //@ ensures[C14] err != nil && Is(err, ErrMax) ==> forall(k, wire_len(k) == old(wire_len(k))) && forall(k, has(c.perPacketID, k) == old(has(c.perPacketID, k)))
 
 //@ func mqtt.(*Client).Unsubscribe -> err
+//@ requires[C10] !rdr(c)
 //@ requires writable(c) && c.perPacketID != nil
 //@ recvinv done(v): !denied(v) && !Is(v, ErrMax)
 //@ loop[reveal=flatlen_] 1: invariant size == 2 + 2*len(topicFilters) + strslenk(topicFilters, rangeindex + 1) && strslenk(topicFilters, rangeindex + 1) <= 65535 * (rangeindex + 1)
@@ -833,12 +871,15 @@ package mqtt
 
 // the three subscribe entry points differ in the maximum QoS they ask for
 //@ func mqtt.(*Client).Subscribe -> err
+//@ requires[C10] !rdr(c)
 //@ requires writable(c) && c.perPacketID != nil
 //@ at[C09] call subscribeLevel#1: assert levelMax == 2
 //@ func mqtt.(*Client).SubscribeLimitAtMostOnce -> err
+//@ requires[C10] !rdr(c)
 //@ requires writable(c) && c.perPacketID != nil
 //@ at[C09] call subscribeLevel#1: assert levelMax == 0
 //@ func mqtt.(*Client).SubscribeLimitAtLeastOnce -> err
+//@ requires[C10] !rdr(c)
 //@ requires writable(c) && c.perPacketID != nil
 //@ at[C09] call subscribeLevel#1: assert levelMax == 1
 
@@ -895,5 +936,6 @@ package mqtt
 //@ func mqtt.(*Client).termCallbacks
 //@ unverified
 //@ func mqtt.(*Client).ReadSlices -> message, topic, err
+//@ requires[C10] rdr(c)
 //@ requires rdinv(c) && rdmaps(c) && (c.readConn == nil) == (c.bufr == nil)
 //@ at[C12] call termCallbacks#1: assert Is(err, ErrClosed)
